@@ -3,25 +3,30 @@ import Ufo2ftModel.Props.C06Sound
 namespace Ufo2ft.C06
 open List
 
+theorem namedAnchor_fields {q : Q} {s : SrcAnchor} {a : NA} (h : namedAnchor q s = .ok (some a)) :
+    ∃ p, parseAnchor s.name.toList = .ok p ∧ a.isMark = p.isMark ∧ a.key = String.ofList p.key ∧ a.number = p.number := by
+  unfold namedAnchor at h
+  split at h
+  · simp at h
+  · split at h
+    · simp at h
+    · cases hp : parseAnchor s.name.toList with
+      | error e => rw [hp] at h; simp at h
+      | ok p =>
+        rw [hp] at h; simp only at h
+        split at h
+        · simp at h
+        · simp only [Except.ok.injEq, Option.some.injEq] at h; subst h
+          exact ⟨p, rfl, rfl, rfl, rfl⟩
+
 theorem namedAnchor_same_name {q : Q} {s s' : SrcAnchor} {a a' : NA} (h : namedAnchor q s = .ok (some a))
     (h' : namedAnchor q s' = .ok (some a')) (hn : s.name = s'.name) :
     a'.isMark = a.isMark ∧ a'.key = a.key ∧ a'.number = a.number := by
-  unfold namedAnchor at h h'
-  rw [← hn] at h'
-  split at h
-  · simp at h
-  · rename_i hne
-    simp only [hne, if_false] at h'
-    cases hp : parseAnchor s.name.toList with
-    | error e => rw [hp] at h; simp at h
-    | ok p =>
-      rw [hp] at h h'; simp only at h h'
-      split at h
-      · simp at h
-      · rename_i hc
-        rw [if_neg hc] at h'
-        simp only [Except.ok.injEq, Option.some.injEq] at h h'
-        subst h; subst h'; exact ⟨rfl, rfl, rfl⟩
+  obtain ⟨p, hp, e1, e2, e3⟩ := namedAnchor_fields h
+  obtain ⟨p', hp', e1', e2', e3'⟩ := namedAnchor_fields h'
+  rw [← hn, hp] at hp'
+  simp only [Except.ok.injEq] at hp'; subst hp'
+  exact ⟨by rw [e1, e1'], by rw [e2, e2'], by rw [e3, e3']⟩
 
 /-- every source anchor of an included glyph that makes a NamedAnchor is represented in the anchor lists -/
 structure ALcov (i : Input) (al : AList) : Prop where
@@ -48,24 +53,27 @@ theorem name_ne_empty_of_toList {s : String} {c : Char} {r : List Char} (h : s.t
   intro e; subst e; simp at h
 
 /-- a source anchor named `_k` (k plain) is a mark NamedAnchor of key k -/
-theorem src_mark {q : Q} {s : SrcAnchor} {k : List Char} (hn : s.name.toList = '_' :: k) (hk : plainKey k = true) :
+theorem src_mark {q : Q} {s : SrcAnchor} {k : List Char} (hid : s.idNoLib = false) (hn : s.name.toList = '_' :: k)
+    (hk : plainKey k = true) :
     ∃ a, namedAnchor q s = .ok (some a) ∧ a.name = s.name ∧ a.isMark = true ∧ a.key = String.ofList k ∧ a.number = none := by
   have hp := parse_mark hk
   rw [← hn] at hp
   have hi : keyIgnorable k = false := (headAlpha_head ((plainKey_iff k).mp hk).1).2.2.2
-  exact ⟨_, namedAnchor_of_parse (name_ne_empty_of_toList hn) hp rfl hi, rfl, rfl, rfl, rfl⟩
+  exact ⟨_, namedAnchor_of_parse (name_ne_empty_of_toList hn) hid hp rfl hi, rfl, rfl, rfl, rfl⟩
 
 /-- a source anchor named `k` (k plain) is a base NamedAnchor of key k -/
-theorem src_base {q : Q} {s : SrcAnchor} {k : List Char} (hn : s.name.toList = k) (hk : plainKey k = true) :
+theorem src_base {q : Q} {s : SrcAnchor} {k : List Char} (hid : s.idNoLib = false) (hn : s.name.toList = k)
+    (hk : plainKey k = true) :
     ∃ a, namedAnchor q s = .ok (some a) ∧ a.name = s.name ∧ a.isMark = false ∧ a.key = String.ofList k ∧ a.number = none := by
   subst hn
   have hp := parse_base hk
   obtain ⟨c, r, e, hc⟩ := ((plainKey_iff _).mp hk).1
   have hi : keyIgnorable s.name.toList = false := (headAlpha_head ((plainKey_iff _).mp hk).1).2.2.2
-  exact ⟨_, namedAnchor_of_parse (name_ne_empty_of_toList e) hp rfl hi, rfl, rfl, rfl, rfl⟩
+  exact ⟨_, namedAnchor_of_parse (name_ne_empty_of_toList e) hid hp rfl hi, rfl, rfl, rfl, rfl⟩
 
 /-- a source anchor named `k_N` (k starting with a letter, N ≥ 1) is a ligature NamedAnchor of key k, number N -/
-theorem src_lig {q : Q} {s : SrcAnchor} {k : List Char} {n : Nat} (hl : isLigName k n s.name.toList = true)
+theorem src_lig {q : Q} {s : SrcAnchor} {k : List Char} {n : Nat} (hid : s.idNoLib = false)
+    (hl : isLigName k n s.name.toList = true)
     (hk : HeadAlpha k) (hn : 1 ≤ n) :
     ∃ a, namedAnchor q s = .ok (some a) ∧ a.name = s.name ∧ a.isMark = false ∧ a.key = String.ofList k ∧ a.number = some n := by
   obtain ⟨ds, ⟨hne, hd, e⟩, hnum⟩ := sepDigits_of_isLigName hl
@@ -76,7 +84,7 @@ theorem src_lig {q : Q} {s : SrcAnchor} {k : List Char} {n : Nat} (hl : isLigNam
   have hi : keyIgnorable k = false := (headAlpha_head ⟨c, r, e', hc⟩).2.2.2
   have hne' : s.name ≠ "" := by
     apply name_ne_empty_of_toList (c := c) (r := r ++ '_' :: ds); rw [e, e']; rfl
-  exact ⟨_, namedAnchor_of_parse hne' hp rfl hi, rfl, rfl, rfl, rfl⟩
+  exact ⟨_, namedAnchor_of_parse hne' hid hp rfl hi, rfl, rfl, rfl, rfl⟩
 
 /-- under `anchorLists = ok`, a name `k_0…` cannot occur on an included glyph -/
 theorem lig_number_pos {i : Input} {al : AList} (cv : ALcov i al) {sg : SrcGlyph} (hsg : sg ∈ i.glyphs)
@@ -94,6 +102,8 @@ theorem lig_number_pos {i : Input} {al : AList} (cv : ALcov i al) {sg : SrcGlyph
     rcases hk with ⟨c, r, e', _⟩ | e'
     · apply name_ne_empty_of_toList (c := c) (r := r ++ '_' :: ds); rw [e, e']; rfl
     · apply name_ne_empty_of_toList (c := '_') (r := ds); rw [e, e']; rfl
-  simp [namedAnchor, hne', hp] at ho
+  unfold namedAnchor at ho
+  rw [if_neg hne'] at ho
+  split at ho <;> simp [hp] at ho
 
 end Ufo2ft.C06
